@@ -74,5 +74,5 @@ package dirhash
 //@ func DirFiles
 //@   modifies *
 //@   allocates
-//@   call filepath.Walk requires [C19] walks_the_root_names_are_cut_against: arg_root == dir
+//@   call filepath.Walk requires [C19] walks_the_root_names_are_cut_against: arg_root == dir && dir == filepath.Clean(entry_dir)
 //@   props C19
